@@ -353,3 +353,228 @@ Proof.
 Qed.
 
 End Layer1.
+
+(* ---------------------------------------------------------------------- *)
+(* Layer 2: [total e] against the specification *)
+
+Definition opt_list {A} (o : option A) : list A := match o with Some x => [x] | None => [] end.
+
+Lemma filter_map_cand_flat f l : filter_map_cand f l = flat_map (fun c => opt_list (f c)) l.
+Proof. induction l as [|a l IH]; cbn; [reflexivity|]. destruct (f a); cbn; now rewrite IH. Qed.
+
+Lemma perm_filter {A} (f : A -> bool) l l' : Permutation l l' -> Permutation (filter f l) (filter f l').
+Proof.
+  induction 1 as [|x l l' _ IH|x y l|l l' l'' _ IH1 _ IH2]; cbn.
+  - constructor.
+  - destruct (f x); [now constructor|assumption].
+  - destruct (f x), (f y); try apply Permutation_refl. apply perm_swap.
+  - eapply Permutation_trans; eassumption.
+Qed.
+
+Lemma lower_star v : String.eqb v "*" = String.eqb (lower v) "*".
+Proof.
+  destruct v as [|c v]; [reflexivity|]. destruct v as [|c' v'].
+  - destruct c as [[] [] [] [] [] [] [] []]; reflexivity.
+  - cbn. destruct (Ascii.eqb c "*"), (Ascii.eqb (lower_ascii c) "*"); reflexivity.
+Qed.
+
+Definition req (r : report) (s : sreport) : Prop :=
+  fst r = Some (fst s) /\ Permutation (snd r) (snd s).
+
+(* same reports in the same order, each at the same token, with the same
+   paths up to their order (sortedQuotes) *)
+Definition reports_equiv : list report -> list sreport -> Prop := Forall2 req.
+
+Section Layer2.
+Variable roots : list utree.
+Variable funcs : list string.
+
+Notation FINAL := (final roots).
+Notation INNER := (inner roots funcs).
+
+Lemma child_named_prop n p : child_named n p = opt_list (find_object_prop n p).
+Proof. unfold child_named, find_object_prop. destruct (find_named _ _); reflexivity. Qed.
+
+Lemma filter_slot_star c : opt_list (fst (filter_slot c)) ++ snd (filter_slot c) = star_of c.
+Proof.
+  unfold filter_slot, star_of. rewrite child_named_prop. unfold find_array_elem.
+  destruct (find_object_prop "*" c); cbn; [reflexivity|].
+  unfold members, cand_children. destruct (map _ _); reflexivity.
+Qed.
+
+Lemma filter_slots_perm l :
+  Permutation (fst (filter_slots l) ++ snd (filter_slots l)) (flat_map star_of l).
+Proof.
+  induction l as [|a l IH]; cbn [filter_slots flat_map]; [constructor|].
+  destruct (filter_slots l) as [h' t']. cbn [fst snd] in IH.
+  rewrite <- (filter_slot_star a). destruct (filter_slot a) as [h t]. cbn [fst snd].
+  assert (Hc : Permutation (h' ++ t ++ t') (t ++ flat_map star_of l)).
+  { eapply Permutation_trans; [apply Permutation_app_swap_app|]. now apply Permutation_app_head. }
+  destruct h as [x|]; cbn [opt_list app].
+  - constructor. exact Hc.
+  - exact Hc.
+Qed.
+
+Lemma on_object_filter_eq c : on_object_filter c =
+  {| c_cur := fst (filter_slots (c_cur c)) ++ snd (filter_slots (c_cur c)); c_filt := true; c_start := c_start c |}.
+Proof. unfold on_object_filter. destruct (filter_slots _); reflexivity. Qed.
+
+Lemma leaf_paths_filter l : leaf_paths l = map fst (filter is_leaf l).
+Proof.
+  induction l as [|a l IH]; cbn; [reflexivity|]. unfold is_leaf.
+  destruct (ut_children (snd a)); cbn; now rewrite IH.
+Qed.
+
+Definition sim (c : chain_st) (w : list tpos_in_tree * bool) (p : tpos) : Prop :=
+  Permutation (c_cur c) (fst w) /\ c_filt c = snd w /\ (c_cur c <> [] -> c_start c = Some p).
+
+Lemma flat_map_nonnil {A B} (f : A -> list B) l : flat_map f l <> [] -> l <> [].
+Proof. intros H ->. now apply H. Qed.
+
+Lemma sim_prop c w p n : String.eqb n "*" = false -> sim c w p ->
+  sim (on_prop_access n c) (walk_seg w (SName n)) p.
+Proof.
+  intros Hn (H1 & H2 & H3). unfold sim, on_prop_access, walk_seg. rewrite Hn. cbn [c_cur c_filt c_start fst snd].
+  rewrite filter_map_cand_flat. split; [|split].
+  - erewrite flat_map_ext; [apply Permutation_flat_map; exact H1|]. intros a. symmetry. apply child_named_prop.
+  - exact H2.
+  - intros H. apply H3. now apply flat_map_nonnil in H.
+Qed.
+
+Lemma sim_idxlit c w p v : sim c w p ->
+  sim (on_index_lit true v c) (walk_seg w (SName (lower v))) p.
+Proof.
+  intros H. unfold on_index_lit. destruct (String.eqb v "*") eqn:Hv.
+  - destruct H as (H1 & H2 & H3). unfold sim, walk_seg. rewrite <- lower_star, Hv.
+    cbn. split; [constructor|split; [exact H2|congruence]].
+  - apply sim_prop; [now rewrite <- lower_star|exact H].
+Qed.
+
+Lemma sim_idx c w p : sim c w p -> sim (on_index_access c) (walk_seg w SElem) p.
+Proof.
+  intros (H1 & H2 & H3). unfold sim, on_index_access, walk_seg. rewrite <- H2.
+  destruct (c_filt c); cbn [c_cur c_filt c_start fst snd].
+  - auto.
+  - rewrite filter_map_cand_flat. split; [|split; [reflexivity|]].
+    + erewrite flat_map_ext; [apply Permutation_flat_map; exact H1|]. intros a. symmetry. apply child_named_prop.
+    + intros H. apply H3. now apply flat_map_nonnil in H.
+Qed.
+
+Lemma sim_star c w p : sim c w p -> sim (on_object_filter c) (walk_seg w SStar) p.
+Proof.
+  intros (H1 & H2 & H3). rewrite on_object_filter_eq. unfold sim, walk_seg. cbn [c_cur c_filt c_start fst snd].
+  split; [|split; [reflexivity|]].
+  - eapply Permutation_trans; [apply filter_slots_perm|]. now apply Permutation_flat_map.
+  - intros H. apply H3. intros E. apply H. rewrite E. reflexivity.
+Qed.
+
+Lemma nil_prop n c : c_cur c = [] -> c_cur (on_prop_access n c) = [].
+Proof. unfold on_prop_access; cbn. now intros ->. Qed.
+
+Lemma nil_idxlit v c : c_cur c = [] -> c_cur (on_index_lit true v c) = [].
+Proof. unfold on_index_lit. destruct (String.eqb v "*"); [reflexivity|apply nil_prop]. Qed.
+
+Lemma nil_idx c : c_cur c = [] -> c_cur (on_index_access c) = [].
+Proof. unfold on_index_access. destruct (c_filt c); cbn; now intros ->. Qed.
+
+Lemma nil_star c : c_cur c = [] -> c_cur (on_object_filter c) = [].
+Proof. rewrite on_object_filter_eq; cbn. now intros ->. Qed.
+
+Definition idx_seg (i : expr) : seg := match i with EStr _ v => SName (lower v) | _ => SElem end.
+
+Lemma chain_of_index o i : chain_of (EIndex o i) = option_map (add_seg (idx_seg i)) (chain_of o).
+Proof. destruct i; reflexivity. Qed.
+
+Lemma walk_add_seg s ch : walk roots (add_seg s ch) = walk_seg (walk roots ch) s.
+Proof. unfold walk, add_seg; cbn. now rewrite fold_left_app. Qed.
+
+Lemma final_sim e : parser_normal e ->
+  match chain_of e with
+  | Some ch => sim (FINAL e) (walk roots ch) (ch_pos ch)
+  | None => c_cur (FINAL e) = []
+  end.
+Proof.
+  induction e using expr_ind'; intros Hn; try reflexivity.
+  - (* EVar *)
+    cbn in Hn. cbn [chain_of final]. unfold walk, walk_start, on_var; cbn [ch_segs ch_root ch_pos fold_left].
+    rewrite Hn. destruct (find_named n roots); unfold sim; cbn.
+    + split; [apply Permutation_refl|split; [reflexivity|reflexivity]].
+    + split; [apply perm_nil|split; [reflexivity|congruence]].
+  - (* EDeref *)
+    cbn in Hn. destruct Hn as (Hl & Hs & Hr). specialize (IHe Hr). cbn [chain_of final].
+    destruct (chain_of e) as [ch|]; cbn [option_map].
+    + rewrite walk_add_seg, Hl. apply sim_prop; [|exact IHe]. now apply String.eqb_neq.
+    + now apply nil_prop.
+  - (* EArrDeref *)
+    cbn in Hn. specialize (IHe Hn). cbn [chain_of final].
+    destruct (chain_of e) as [ch|]; cbn [option_map].
+    + rewrite walk_add_seg. now apply sim_star.
+    + now apply nil_star.
+  - (* EIndex *)
+    cbn in Hn. destruct Hn as (Ho & Hi). specialize (IHe1 Ho). rewrite chain_of_index. cbn [final].
+    destruct (chain_of e1) as [ch|]; cbn [option_map].
+    + rewrite walk_add_seg. destruct e2; cbn [leave_index_chain idx_seg];
+        try (now apply sim_idx). now apply sim_idxlit.
+    + destruct e2; cbn [leave_index_chain]; try (now apply nil_idx). now apply nil_idxlit.
+Qed.
+
+Lemma flush_sim c w p : sim c w p ->
+  reports_equiv (flush c) (match map fst (filter is_leaf (fst w)) with [] => [] | ps => [(p, ps)] end).
+Proof.
+  intros (H1 & H2 & H3). unfold flush. rewrite leaf_paths_filter.
+  assert (HP : Permutation (map fst (filter is_leaf (c_cur c))) (map fst (filter is_leaf (fst w)))).
+  { apply Permutation_map. now apply perm_filter. }
+  destruct (map fst (filter is_leaf (c_cur c))) as [|a A] eqn:EA;
+    destruct (map fst (filter is_leaf (fst w))) as [|b B] eqn:EB.
+  - constructor.
+  - apply Permutation_nil in HP. discriminate.
+  - apply Permutation_sym, Permutation_nil in HP. discriminate.
+  - constructor; [|constructor]. split; cbn [fst snd]; [|exact HP].
+    apply H3. intros E. rewrite E in EA. discriminate.
+Qed.
+
+Lemma top_equiv e : parser_normal e ->
+  reports_equiv (flush (FINAL e)) (flat_map (report_of roots) (top_chain e)).
+Proof.
+  intros Hn. pose proof (final_sim e Hn) as H. unfold top_chain.
+  destruct (chain_of e) as [ch|]; cbn [flat_map].
+  - rewrite app_nil_r. unfold report_of, reads. now apply flush_sim.
+  - unfold flush. rewrite H. constructor.
+Qed.
+
+Lemma sanitising_safe c : sanitising c = is_safe_call c.
+Proof. reflexivity. Qed.
+
+Lemma equiv_app a a' b b' : reports_equiv a a' -> reports_equiv b b' -> reports_equiv (a ++ b) (a' ++ b').
+Proof. apply Forall2_app. Qed.
+
+Lemma inner_equiv e : parser_normal e ->
+  reports_equiv (INNER e) (flat_map (report_of roots) (sub_chains (known funcs) e)).
+Proof.
+  induction e using expr_ind'; intros Hn; cbn [inner sub_chains]; cbn [parser_normal] in Hn;
+    try (now constructor).
+  - destruct Hn as (_ & _ & Hr). auto.
+  - auto.
+  - destruct Hn as (Ho & Hi). rewrite !flat_map_app.
+    apply equiv_app; [apply equiv_app|]; [now apply IHe2|now apply top_equiv|now apply IHe1].
+  - rewrite flat_map_app. apply equiv_app; [now apply IHe|now apply top_equiv].
+  - destruct Hn as (Hl & Hr). rewrite !flat_map_app.
+    apply equiv_app; apply equiv_app; [now apply IHe1|now apply top_equiv|now apply IHe2|now apply top_equiv].
+  - destruct Hn as (Hl & Hr). rewrite !flat_map_app.
+    apply equiv_app; apply equiv_app; [now apply IHe1|now apply top_equiv|now apply IHe2|now apply top_equiv].
+  - change (sanitising c) with (is_safe_call c). destruct (is_safe_call c); [constructor|].
+    destruct (known funcs c); [|constructor].
+    induction args as [|a args IHa]; cbn [flat_map]; [constructor|].
+    destruct Hn as (Ha & Hrest). inversion H as [|? ? Hh Ht]; subst.
+    rewrite !flat_map_app.
+    apply equiv_app; [apply equiv_app|]; [now apply Hh|now apply top_equiv|now apply IHa].
+Qed.
+
+Theorem untrusted_exact e : parser_normal e ->
+  reports_equiv (reported true roots (events funcs e)) (spec_paths roots (known funcs) e).
+Proof.
+  intros Hn. rewrite reported_total. unfold total, spec_paths, chains. rewrite flat_map_app.
+  apply equiv_app; [now apply inner_equiv|now apply top_equiv].
+Qed.
+
+End Layer2.
